@@ -125,8 +125,9 @@ func VT_SelfTest(seed int) []int64 {
 		idx[i] = int32(i)
 	}
 	ptw.writeMessages(msgs, idx)
-	out = append(out, int64(len(ptw.queue.queue)))
-	for _, b := range ptw.queue.queue {
+	queued, _ := vhQueueSnapshot(&ptw.queue)
+	out = append(out, int64(len(queued)))
+	for _, b := range queued {
 		out = append(out, int64(b.size), b.bytes)
 	}
 	_ = context.Background
